@@ -11,10 +11,12 @@ echo "== demo_cmd: $DEMO"
 # with patch: tests pass, demo fails
 git -C $WT diff --quiet -- src && { echo "patch not applied in worktree; applying"; git -C $WT apply $OUT/patch.diff; }
 T1=$(cargo test --offline --lib --bins 2>&1 | grep -E 'test result' | head -1)
+cargo build --offline --bins > /dev/null 2>&1
 echo "tests with patch: $T1"
 ( eval "$DEMO" ) > $OUT/demo_with.log 2>&1; D1=$?
 # without patch: demo passes
 git -C $WT stash -q -- src 2>/dev/null || git -C $WT checkout -- src
+cargo build --offline --bins > /dev/null 2>&1
 ( eval "$DEMO" ) > $OUT/demo_without.log 2>&1; D0=$?
 echo "demo rc with patch=$D1 without=$D0"
 # our checks
